@@ -77,6 +77,18 @@ class Equation:
 
         return output, [term for term in inputs if term]
 
+    def get_vars_in_update(self) -> List[List[str]]:
+        """
+        Get, for each term, the variables that should be included in the
+        update
+
+        Note: a variable may appear in more than one term, so this cannot be
+        decided by its name alone
+        """
+        return [[var for var, pos in zip(self.term_vars[i], self.var_pos[i])
+                 if self.in_update[i][pos]]
+                for i in range(len(self.term_vars))]
+
     def get_in_update(self) -> List[List[bool]]:
         """
         Get the information about which values are actually used in the update
@@ -159,13 +171,17 @@ class Equation:
 
         self.factor_order: Dict[str, Tuple[int, int]] = {}
         self.in_update: List[List[bool]] = []
+        # Position of each variable in its term's in_update list
+        self.var_pos: List[List[int]] = []
         for i, term in enumerate(self.equation.find_data("times")):
             self.term_tensors.append([])
             self.term_vars.append([])
             self.in_update.append([])
+            self.var_pos.append([])
 
             for var in term.find_data("var"):
                 self.term_vars[-1].append(ParseUtils.next_str(var))
+                self.var_pos[-1].append(len(self.in_update[-1]))
                 self.factor_order[self.term_vars[-1][-1]
                                   ] = (i, len(self.in_update[-1]))
                 self.in_update[-1].append(True)
@@ -181,11 +197,13 @@ class Equation:
             self.term_tensors.append([])
             self.term_vars.append([])
             self.in_update.append([])
+            self.var_pos.append([])
 
             for child in take.children:
                 if isinstance(child, Tree):
                     if child.data == "var":
                         self.term_vars[-1].append(ParseUtils.next_str(child))
+                        self.var_pos[-1].append(len(self.in_update[-1]))
                         self.factor_order[self.term_vars[-1][-1]] = (
                             len(self.term_tensors) - 1, len(self.in_update[-1]))
                         self.in_update[-1].append(False)
